@@ -77,6 +77,9 @@ func devMain(args []string) {
 		os.Exit(2)
 	}
 	fmt.Printf("loaded in %.1fs\n", time.Since(t0).Seconds())
+	for _, d := range eng.drift {
+		fmt.Println("DRIFT:", d)
+	}
 	var frs []*FuncResult
 	for _, sp := range eng.specList {
 		if sp.Assume || sp.Ghost || (sp.Inline && !sp.IsProc && len(sp.Ensures) == 0) {
